@@ -245,40 +245,48 @@ func (r *runner) randomStep(rng *sim.Rng, c cfg) {
 		if rng.Intn(2) == 0 {
 			dir = "S"
 		}
+		par := r.w.Pars[app-1]
+		lp := r.lastPrice(app, pair)
+		market := rng.Intn(4) == 0 && (lp > 0 || rng.Intn(5) == 0)
 		price := priceNear(rng, ctr)
-		offer := amt
-		if dir == "B" {
-			offer = (price*amt + PS - 1) / PS
-			if rng.Intn(2) == 0 {
-				offer = offer * 12 / 10 // room for the fee and then some (difference is not taken)
-			} else {
-				offer += offer/10 + 1 + offer*int64(r.w.Pars[app-1].Fn)/int64(r.w.Pars[app-1].Fd)
-			}
-		} else {
-			offer = amt + amt*int64(r.w.Pars[app-1].Fn)/int64(r.w.Pars[app-1].Fd)
-			if rng.Intn(6) == 0 {
-				offer += int64(rng.Intn(50))
+		eff := tickDownP(price, par.Prec) // the price the handler will give the order
+		if dir == "S" {
+			eff = tickUpP(price, par.Prec)
+		}
+		if market && lp > 0 {
+			eff = limHi(lp, par.Prec)
+			if dir == "S" {
+				eff = limLo(lp, par.Prec)
 			}
 		}
-		if rng.Intn(25) == 0 {
-			offer = amt // often too little for the fee
+		if rng.Intn(5) < 2 { // rounding / fee-step boundary amounts for this price and this app's fee rate
+			amt = boundaryAmt(rng, dir, eff, par)
+		}
+		offer := amt
+		if dir == "B" {
+			offer = (eff*amt + PS - 1) / PS
+		}
+		need := offer + offer*par.Fn/par.Fd
+		switch rng.Intn(6) {
+		case 0:
+			offer = need // exactly offer coin + reserve
+		case 1:
+			offer = need + 1
+		case 2:
+			offer = need - 1 // one short of the reserve
+		default:
+			offer = need + need/10 + int64(rng.Intn(40))
+		}
+		if !market && dir == "B" && price != eff {
+			offer += (price-eff)*amt/PS + 1 // ValidateBasic sizes the offer with the unrounded price
 		}
 		if offer < 100 {
 			offer = 100
 		}
-		hasLp := false
-		for _, p := range r.st["pairs"].([]M) {
-			if p["app"].(int64) == app && p["id"].(int64) == pair && p["lp"].(int64) > 0 {
-				hasLp = true
-			}
-		}
-		if rng.Intn(4) != 0 || (!hasLp && rng.Intn(5) != 0) {
-			r.step("LimitOrder", M{"u": u, "app": app, "pair": pair, "dir": dir, "price": price, "amt": amt, "offer": offer, "life": life})
-		} else {
-			if dir == "B" {
-				offer = (ctr*11/10*amt+PS-1)/PS + amt/5 + 2
-			}
+		if market {
 			r.step("MarketOrder", M{"u": u, "app": app, "pair": pair, "dir": dir, "amt": amt, "offer": offer, "life": life})
+		} else {
+			r.step("LimitOrder", M{"u": u, "app": app, "pair": pair, "dir": dir, "price": price, "amt": amt, "offer": offer, "life": life})
 		}
 	case 2:
 		tick := func(p int64) int64 { // round to 3 significant digits +1 (prec 3 => 4 digits)
@@ -300,7 +308,17 @@ func (r *runner) randomStep(rng *sim.Rng, c cfg) {
 		case 1:
 			buyAmt = 0
 		}
-		r.step("MMOrder", M{"u": u, "app": app, "pair": pair, "sellAmt": sellAmt, "minSell": mid, "maxSell": hi,
+		loS := mid
+		if rng.Intn(3) == 0 { // single-tick sides with amounts on the rounding boundary of that tick price
+			lo, hi = mid, mid
+			if buyAmt > 0 {
+				buyAmt = boundaryAmt(rng, "B", mid, r.w.Pars[app-1])
+			}
+			if sellAmt > 0 {
+				sellAmt = boundaryAmt(rng, "S", mid, r.w.Pars[app-1])
+			}
+		}
+		r.step("MMOrder", M{"u": u, "app": app, "pair": pair, "sellAmt": sellAmt, "minSell": loS, "maxSell": hi,
 			"buyAmt": buyAmt, "minBuy": lo, "maxBuy": mid, "life": life})
 	case 3:
 		os := r.orders(func(o M) bool { return o["app"].(int64) == app })
@@ -483,6 +501,59 @@ func (r *runner) mmCycle(rng *sim.Rng, c cfg) {
 	}
 }
 
+// tick arithmetic of amm/tick.go at an integer price scale (same as TickDown / TickUp / LimLo / LimHi of Liquidity.tla)
+func tickUnit(p, prec int64) int64 {
+	d := int64(0)
+	for q := p; q > 0; q /= 10 {
+		d++
+	}
+	u := int64(1)
+	for k := d - 1 - prec; k > 0; k-- {
+		u *= 10
+	}
+	return u
+}
+func tickDownP(p, prec int64) int64 { u := tickUnit(p, prec); return p / u * u }
+func tickUpP(p, prec int64) int64 {
+	d := tickDownP(p, prec)
+	if d == p {
+		return p
+	}
+	return d + tickUnit(d, prec)
+}
+func limLo(l, prec int64) int64 { return tickUpP(9*l, prec) / 10 }
+func limHi(l, prec int64) int64 { return tickDownP(11*l, prec) / 10 }
+
+// boundaryAmt picks an order amount on the rounding and fee-step boundaries of the handler arithmetic for order
+// price p: for a buy, price*amount is fractional and its rounded-up value (the offer coin) is N-1, N or N+1 for a
+// fee step N (floor(N*fee) > floor((N-1)*fee)); for a sell the amount itself is N-1, N or N+1.
+func boundaryAmt(rng *sim.Rng, dir string, p int64, par Par) int64 {
+	k := int64(1 + rng.Intn(12))
+	n := (k*par.Fd + par.Fn - 1) / par.Fn // smallest N with floor(N*fn/fd) = k
+	for n < 110 {
+		k += int64(1 + rng.Intn(12))
+		n = (k*par.Fd + par.Fn - 1) / par.Fn
+	}
+	n += int64(rng.Intn(3)) - 1
+	if dir == "S" || p <= 0 {
+		return n
+	}
+	a := (n*PS - 1) / p // largest amount with price*amount < N: the offer coin rounds up to N (or N-1 when exact)
+	if a < 100 {
+		a = 100
+	}
+	return a
+}
+
+func (r *runner) lastPrice(app, pair int64) int64 {
+	for _, p := range r.st["pairs"].([]M) {
+		if p["app"].(int64) == app && p["id"].(int64) == pair {
+			return p["lp"].(int64)
+		}
+	}
+	return 0
+}
+
 func tickOf(p int64) int64 { // tick precision 3 at scale 1e4
 	u := int64(1)
 	for q := p; q >= 10000; q /= 10 {
@@ -531,7 +602,11 @@ func (r *runner) ladderCycle(rng *sim.Rng, c cfg) {
 	amt := []int64{900, 1500, 3000, 1000}[rng.Intn(4)]
 	nt := r.w.Pars[app-1].MaxTicks
 	hi := tickOf(L * int64(102+rng.Intn(5)) / 100)
-	r.step("MMOrder", M{"u": owner, "app": app, "pair": pair, "sellAmt": int64(0), "minSell": int64(0), "maxSell": int64(0),
+	sellAmt, loS, hiS := int64(0), int64(0), int64(0)
+	if rng.Intn(2) == 0 { // two-sided: the sell ticks follow the buy ticks in the maker's order index
+		sellAmt, loS, hiS = amt, tickOf(L*107/100), tickOf(L*109/100)
+	}
+	r.step("MMOrder", M{"u": owner, "app": app, "pair": pair, "sellAmt": sellAmt, "minSell": loS, "maxSell": hiS,
 		"buyAmt": amt, "minBuy": tickOf(L * 93 / 100), "maxBuy": hi, "life": life})
 	if rng.Intn(2) == 0 {
 		r.batchOf(app)
@@ -548,6 +623,174 @@ func (r *runner) ladderCycle(rng *sim.Rng, c cfg) {
 	r.step("LimitOrder", M{"u": other, "app": app, "pair": pair, "dir": "S", "price": sp, "amt": q, "offer": q + q/5 + 1, "life": life})
 	r.batchOf(app)
 	r.block(6)
+	// the completed top tick is deleted by now: the maker's index has a hole in front of the remaining ticks
+	switch rng.Intn(3) {
+	case 0:
+		r.step("CancelMM", M{"u": owner, "app": app, "pair": pair})
+	case 1:
+		L2 := r.centre(app, pair)
+		r.step("MMOrder", M{"u": owner, "app": app, "pair": pair, "sellAmt": int64(0), "minSell": int64(0), "maxSell": int64(0),
+			"buyAmt": amt / 2, "minBuy": tickOf(L2 * 94 / 100), "maxBuy": tickOf(L2 * 97 / 100), "life": life})
+	}
+}
+
+// marketCycle: market orders as first-class citizens. With a last price in the pair, market buy and sell orders
+// with boundary amounts are placed (next to a resting bystander order offering the same coin), partially filled,
+// and ended in the different ways (expiry, cancel, cancel-all, completion).
+func (r *runner) marketCycle(rng *sim.Rng, c cfg) {
+	app := c.apps[rng.Intn(len(c.apps))]
+	prs := c.pairsOf[app]
+	pair := prs[rng.Intn(len(prs))]
+	par := r.w.Pars[app-1]
+	life := par.MaxLife
+	if r.lastPrice(app, pair) == 0 {
+		ctr := tickOf(r.centre(app, pair))
+		r.step("LimitOrder", M{"u": "u1", "app": app, "pair": pair, "dir": "B", "price": ctr, "amt": int64(300), "offer": (ctr*300+PS-1)/PS*12/10 + 2, "life": life})
+		r.step("LimitOrder", M{"u": "u2", "app": app, "pair": pair, "dir": "S", "price": ctr, "amt": int64(300), "offer": int64(400), "life": life})
+		r.batchOf(app)
+		if r.lastPrice(app, pair) == 0 {
+			return
+		}
+	}
+	L := r.lastPrice(app, pair)
+	us := []string{"u1", "u2", "u3"}
+	rng.Shuffle(len(us), func(i, j int) { us[i], us[j] = us[j], us[i] })
+	trader, bystander, maker := us[0], us[1], us[2]
+	dir, opp := "B", "S"
+	if rng.Intn(3) == 0 {
+		dir, opp = "S", "B"
+	}
+	// bystander: a resting order offering the same coin as the market order, far from the book
+	bp, ba := tickOf(L*92/100), int64(2000)
+	if dir == "S" {
+		bp = tickOf(L * 108 / 100)
+	}
+	boff := ba + ba/5 + 1
+	if dir == "B" {
+		boff = (bp*ba+PS-1)/PS*12/10 + 2
+	}
+	r.step("LimitOrder", M{"u": bystander, "app": app, "pair": pair, "dir": dir, "price": bp, "amt": ba, "offer": boff, "life": life})
+	eff := limHi(L, par.Prec)
+	if dir == "S" {
+		eff = limLo(L, par.Prec)
+	}
+	amt := boundaryAmt(rng, dir, eff, par)
+	// a smaller resting order on the other side at the last price: the market order is partially filled
+	if rng.Intn(4) != 0 {
+		q := amt / int64(2+rng.Intn(3))
+		if q < 100 {
+			q = 100
+		}
+		mp := tickOf(L)
+		moff := q + q/5 + 1
+		if opp == "B" {
+			moff = (mp*q+PS-1)/PS*12/10 + 2
+		}
+		r.step("LimitOrder", M{"u": maker, "app": app, "pair": pair, "dir": opp, "price": mp, "amt": q, "offer": moff, "life": life})
+	}
+	offer := amt
+	if dir == "B" {
+		offer = (eff*amt + PS - 1) / PS
+	}
+	offer += offer * par.Fn / par.Fd
+	if rng.Intn(2) == 0 {
+		offer += int64(rng.Intn(30))
+	}
+	mlife := []int64{0, 6, life, life}[rng.Intn(4)]
+	r.step("MarketOrder", M{"u": trader, "app": app, "pair": pair, "dir": dir, "amt": amt, "offer": offer, "life": mlife})
+	r.batchOf(app)
+	switch rng.Intn(3) {
+	case 0:
+		for _, o := range r.orders(func(o M) bool {
+			return live(o) && o["typ"].(string) == "M" && o["owner"].(string) == trader && o["app"].(int64) == app && o["pair"].(int64) == pair
+		}) {
+			r.step("CancelOrder", M{"u": trader, "app": app, "pair": pair, "id": o["id"].(int64)})
+		}
+	case 1:
+		r.step("CancelAll", M{"u": trader, "app": app, "pairs": []int64{pair}})
+	default:
+		r.block(6)
+	}
+	if rng.Intn(2) == 0 {
+		r.step("CancelAll", M{"u": bystander, "app": app, "pairs": []int64{}})
+	}
+}
+
+// farmCycle: the id-exchange axes of farming (pool id != pair id, pool id != app id) and the life of farm positions
+// with several farmers in one pool: staggered farm times (one farmer's entry matures while the other's stays queued,
+// in both role assignments), top-up of an ACTIVE position, unfarming an active position down to exactly zero and
+// partly, unfarm-and-withdraw.
+func (r *runner) farmCycle(rng *sim.Rng, c cfg) {
+	if !c.pools {
+		return
+	}
+	app := c.apps[rng.Intn(len(c.apps))]
+	pick := func() (M, int) {
+		var best M
+		score := -1
+		for _, p := range r.st["pools"].([]M) {
+			if p["app"].(int64) != app || p["disabled"].(bool) {
+				continue
+			}
+			sc := 0
+			if p["id"].(int64) != p["pair"].(int64) {
+				sc++
+			}
+			if p["id"].(int64) != app {
+				sc++
+			}
+			if sc > score {
+				best, score = p, sc
+			}
+		}
+		return best, score
+	}
+	pl, score := pick()
+	for k := 0; k < 2 && score < 2 && r.st["lastPool"].([]int64)[app-1] < MaxPool; k++ {
+		prs := c.pairsOf[app]
+		pair := prs[rng.Intn(len(prs))]
+		ctr := r.centre(app, pair)
+		x := int64(20000)
+		r.step("CreateRangedPool", M{"u": Users[rng.Intn(3)], "app": app, "pair": pair, "x": x, "y": x * PS / ctr,
+			"min": tickOf(ctr * 8 / 10), "max": tickOf(ctr * 12 / 10), "init": tickOf(ctr)})
+		pl, score = pick()
+	}
+	if score < 0 {
+		return
+	}
+	pool, pair := pl["id"].(int64), pl["pair"].(int64)
+	ctr := r.centre(app, pair)
+	us := []string{"u1", "u2", "u3"}
+	rng.Shuffle(len(us), func(i, j int) { us[i], us[j] = us[j], us[i] })
+	f1, f2 := us[0], us[1]
+	dep := func(u string) {
+		x := []int64{1000, 3000, 5000}[rng.Intn(3)]
+		r.step("DepositAndFarm", M{"u": u, "app": app, "pool": pool, "x": x, "y": x * PS / ctr})
+	}
+	half := int64(43300) // a little more than half the queue duration
+	stagger := func(a, b string) {
+		dep(a)
+		r.block(half)
+		dep(b)
+		r.block(half)
+		r.batchOf(app) // a's entry matures, b's stays queued
+		r.block(half)
+		r.batchOf(app) // b's entry matures
+	}
+	stagger(f1, f2) // both become active
+	stagger(f2, f1) // top-ups of active positions, roles exchanged
+	if t := r.farmedBy(f1, app, pool); t > 0 {
+		r.step("Unfarm", M{"u": f1, "app": app, "pool": pool, "amt": t}) // the active position goes to exactly zero
+	}
+	if t := r.farmedBy(f2, app, pool); t > 2 {
+		r.step("Unfarm", M{"u": f2, "app": app, "pool": pool, "amt": t * 2 / 3})
+		if rng.Intn(2) == 0 {
+			r.step("UnfarmAndWithdraw", M{"u": f2, "app": app, "pool": pool, "amt": r.farmedBy(f2, app, pool)})
+		}
+	}
+	dep(f1) // farming again after the position was closed
+	r.block(half * 2)
+	r.batchOf(app)
 }
 
 // cancelAllCycle: one user has an older order in the higher-id pair and a fresh order (current batch) in the
@@ -715,6 +958,8 @@ func driveRandom(lg *sim.Log, base *World, seed int64, runs, steps int) {
 		cyc := []int{steps / 4, steps * 2 / 3}
 		lad := []int{steps / 6, steps / 2, steps * 5 / 6}
 		call := []int{steps / 3, steps * 3 / 4}
+		mkt := []int{steps / 5, steps * 2 / 5, steps * 7 / 10}
+		frm := []int{steps * 11 / 20}
 		for r.n < steps {
 			switch {
 			case c.mm && len(cyc) > 0 && r.n >= cyc[0]:
@@ -723,6 +968,12 @@ func driveRandom(lg *sim.Log, base *World, seed int64, runs, steps int) {
 			case c.mm && len(lad) > 0 && r.n >= lad[0]:
 				lad = lad[1:]
 				r.ladderCycle(rng, c)
+			case len(mkt) > 0 && r.n >= mkt[0]:
+				mkt = mkt[1:]
+				r.marketCycle(rng, c)
+			case len(frm) > 0 && r.n >= frm[0]:
+				frm = frm[1:]
+				r.farmCycle(rng, c)
 			case len(call) > 0 && r.n >= call[0]:
 				call = call[1:]
 				r.cancelAllCycle(rng, c)
